@@ -1,6 +1,8 @@
 #!/bin/bash
+# (pyfront/target is NOT copied: cargo gives /repo and a scratch worktree the same package hash and judges freshness by mtime, so a
+# copied target built from a patched /repo would be taken for an up-to-date build of the scratch tree.)
 # Scratch triage copy of the harness (never used for registered checks or evidence): ${MQ:-/tmp/mq}/verif builds against ${MQ:-/tmp/mq}/repo.
 mkdir -p ${MQ:-/tmp/mq}/verif
-rsync -a --delete --exclude mc/target --exclude .git --exclude replays --exclude evidence /verif/ ${MQ:-/tmp/mq}/verif/
+rsync -a --delete --exclude mc/target --exclude pyfront/target --exclude pyfront/pkg --exclude .git --exclude replays --exclude evidence /verif/ ${MQ:-/tmp/mq}/verif/
 mkdir -p ${MQ:-/tmp/mq}/verif/evidence ${MQ:-/tmp/mq}/verif/replays
 sed -i 's|path = "/repo"|path = "'"${MQ:-/tmp/mq}"'/repo"|' ${MQ:-/tmp/mq}/verif/mc/Cargo.toml
